@@ -94,6 +94,81 @@ pub fn spec_roundtrip(p: &RtcpPacket) -> Result<RtcpPacket, &'static str> {
     }
 }
 
+fn be32(b: &[u8], i: usize) -> u32 { u32::from_be_bytes([b[i], b[i + 1], b[i + 2], b[i + 3]]) }
+fn be16(b: &[u8], i: usize) -> u16 { u16::from_be_bytes([b[i], b[i + 1]]) }
+
+/// RFC conformance of ONE serialised packet, read by absolute octet offsets from the packet diagrams
+/// (RFC 3550 §6.4/§6.6, RFC 4585 §6.1-6.3, RFC 5104 §4.3.1.1, REMB draft §2, TWCC draft §3.1) —
+/// independent of the stack's own parser, so a field the builder and the parser misplace *in the same way*
+/// (or a reserved word that is not zero) is still seen. `want` is the canonical packet (`spec_roundtrip`).
+pub fn rfc_layout(want: &RtcpPacket, b: &[u8]) -> Option<String> {
+    if b.len() < 4 || b.len() % 4 != 0 { return Some("length not a multiple of 4".into()); }
+    if b[0] >> 6 != 2 { return Some("version".into()); }
+    if be16(b, 2) as usize != b.len() / 4 - 1 { return Some("length field".into()); }
+    let (p, cnt, pt) = (b[0] & 0x20 != 0, (b[0] & 0x1F) as usize, b[1]);
+    let blk = |o: usize, r: &ReportBlock| -> bool {
+        be32(b, o) == r.ssrc && b[o + 4] == r.fraction_lost
+            && (((b[o + 5] as i32) << 16 | (b[o + 6] as i32) << 8 | b[o + 7] as i32) << 8 >> 8) == r.packets_lost
+            && be32(b, o + 8) == r.highest_sequence && be32(b, o + 12) == r.jitter && be32(b, o + 16) == r.last_sender_report
+            && be32(b, o + 20) == r.delay_since_last_sender_report };
+    let bad = |w: &str| Some(w.to_string());
+    match want {
+        RtcpPacket::SenderReport(s) => {
+            if pt != 200 || p || cnt != s.report_blocks.len() || b.len() != 28 + 24 * cnt { return bad("sr header"); }
+            if be32(b, 4) != s.sender_ssrc || be32(b, 8) != s.ntp_most || be32(b, 12) != s.ntp_least || be32(b, 16) != s.rtp_timestamp
+                || be32(b, 20) != s.packet_count || be32(b, 24) != s.octet_count { return bad("sr sender info"); }
+            if !s.report_blocks.iter().enumerate().all(|(i, r)| blk(28 + 24 * i, r)) { return bad("sr report block"); } }
+        RtcpPacket::ReceiverReport(s) => {
+            if pt != 201 || p || cnt != s.report_blocks.len() || b.len() != 8 + 24 * cnt || be32(b, 4) != s.sender_ssrc { return bad("rr header"); }
+            if !s.report_blocks.iter().enumerate().all(|(i, r)| blk(8 + 24 * i, r)) { return bad("rr report block"); } }
+        RtcpPacket::SourceDescription(s) => {
+            if pt != 202 || p || cnt != s.chunks.len() { return bad("sdes header"); }
+            let mut o = 4;
+            for c in &s.chunks {
+                if o + 4 > b.len() || be32(b, o) != c.ssrc { return bad("sdes chunk ssrc"); } o += 4;
+                for i in &c.items { if o + 2 + i.text.len() > b.len() || b[o] != i.ty || b[o + 1] as usize != i.text.len() || &b[o + 2..o + 2 + i.text.len()] != i.text.as_bytes() { return bad("sdes item"); } o += 2 + i.text.len(); }
+                let end = (o + 4) & !3;      // at least one null octet, then nulls up to the boundary
+                if end > b.len() || b[o..end].iter().any(|x| *x != 0) { return bad("sdes chunk terminator / padding"); } o = end; }
+            if o != b.len() { return bad("sdes trailing octets"); } }
+        RtcpPacket::Goodbye(g) => {
+            if pt != 203 || p || cnt != g.sources.len() || b.len() < 4 + 4 * cnt { return bad("bye header"); }
+            if !g.sources.iter().enumerate().all(|(i, x)| be32(b, 4 + 4 * i) == *x) { return bad("bye sources"); }
+            let o = 4 + 4 * cnt;
+            match &g.reason { None => if b.len() != o { return bad("bye: octets after the sources"); },
+                Some(r) => { if o + 1 + r.len() > b.len() || b[o] as usize != r.len() || &b[o + 1..o + 1 + r.len()] != r.as_bytes()
+                    || b[o + 1 + r.len()..].iter().any(|x| *x != 0) || b.len() != (o + 1 + r.len() + 3) & !3 { return bad("bye reason"); } } } }
+        RtcpPacket::PictureLossIndication(x) => if pt != 206 || p || cnt != 1 || b.len() != 12 || be32(b, 4) != x.sender_ssrc || be32(b, 8) != x.media_ssrc { return bad("pli"); },
+        RtcpPacket::FullIntraRequest(f) => {
+            if pt != 206 || p || cnt != 4 || b.len() != 12 + 8 * f.requests.len() || be32(b, 4) != f.sender_ssrc { return bad("fir header"); }
+            if be32(b, 8) != 0 { return bad("fir: media source SSRC must be 0 (RFC 5104 §4.3.1.2)"); }
+            for (i, r) in f.requests.iter().enumerate() { let o = 12 + 8 * i;
+                if be32(b, o) != r.ssrc || b[o + 4] != r.sequence_number { return bad("fir entry"); }
+                if b[o + 5..o + 8] != [0, 0, 0] { return bad("fir: reserved octets must be 0"); } } }
+        RtcpPacket::GenericNack(n) => {
+            if pt != 205 || p || cnt != 1 || b.len() < 16 || be32(b, 4) != n.sender_ssrc || be32(b, 8) != n.media_ssrc { return bad("nack header"); }
+            let mut set = vec![];
+            for k in 0..(b.len() - 12) / 4 { let (pid, blp) = (be16(b, 12 + 4 * k), be16(b, 14 + 4 * k)); set.push(pid);
+                for i in 0..16 { if blp >> i & 1 == 1 { set.push(pid.wrapping_add(i + 1)); } } }
+            set.sort_unstable(); set.dedup();
+            if set != n.lost_packets { return bad("nack FCI does not denote the lost set"); } }
+        RtcpPacket::RemoteBitrateEstimate(r) => {
+            if pt != 206 || p || cnt != 15 || b.len() != 20 + 4 * r.ssrcs.len() || be32(b, 4) != r.sender_ssrc { return bad("remb header"); }
+            if be32(b, 8) != 0 { return bad("remb: media source SSRC must be 0"); }
+            if &b[12..16] != b"REMB" || b[16] as usize != r.ssrcs.len() { return bad("remb identifier / count"); }
+            let (e, m) = ((b[17] >> 2) as u32, ((b[17] as u64 & 3) << 16) | (b[18] as u64) << 8 | b[19] as u64);
+            if (m as u128) << e != r.bitrate_bps as u128 { return bad("remb mantissa/exponent"); }
+            if !r.ssrcs.iter().enumerate().all(|(i, x)| be32(b, 20 + 4 * i) == *x) { return bad("remb ssrcs"); } }
+        RtcpPacket::TransportWideCc(t) => {
+            let pad = if p { b[b.len() - 1] as usize } else { 0 };
+            if pt != 205 || cnt != 15 || b.len() < 20 + pad || (p && pad == 0) || (!p && (16 + t.payload.len()) % 4 != 0) { return bad("twcc header / padding"); }
+            if be32(b, 4) != t.sender_ssrc || be32(b, 8) != t.media_ssrc || be16(b, 12) != t.base_sequence || be16(b, 14) != t.packet_status_count
+                || (be32(b, 16) >> 8) != t.reference_time_64ms || b[19] != t.feedback_packet_count { return bad("twcc fixed fields"); }
+            if b[20..b.len() - pad] != t.payload[..] { return bad("twcc payload"); }
+            if pad > 3 { return bad("twcc: more padding than needed"); } }
+    }
+    None
+}
+
 /// what a round trip is allowed to change: a NACK is a *set* of sequence numbers
 fn norm(p: &RtcpPacket) -> RtcpPacket {
     match p {
@@ -344,6 +419,14 @@ pub fn s_rtcp_marshal(run: &mut Run, toks: &[&str]) -> (String, Fails) {
             if let Some((k, c)) = must_reject { f.push((format!("codec:{k}:marshal-accepts:{c}"), format!("{} bytes written", b.len()))); }
             else {
                 let want: Vec<RtcpPacket> = spec.iter().map(|r| r.clone().unwrap()).collect();
+                // RFC layout of every packet of the compound, by octet offsets
+                { let mut off = 0;
+                  for w in &want {
+                    if off + 4 > b.len() { f.push((format!("codec:{}:rfc-layout", kind(w)), "compound shorter than its packets".into())); break; }
+                    let l = (be16(b, off + 2) as usize + 1) * 4;
+                    if off + l > b.len() { f.push((format!("codec:{}:rfc-layout", kind(w)), "length field beyond the datagram".into())); break; }
+                    if let Some(d) = rfc_layout(w, &b[off..off + l]) { f.push((format!("codec:{}:rfc-layout", kind(w)), d)); } else { run.count("rtcp_rfc_layout_ok"); }
+                    off += l; } }
                 match parse_c(b) {
                     Err(p) => f.push(("panic:rtcp_parse".into(), p)),
                     Ok(Err(e)) => f.push((format!("codec:{}:framing", kind(&ps[0])), format!("own output unparsable: {}", show_err(&e)))),
@@ -493,7 +576,7 @@ pub fn s_rtx_unwrap(_run: &mut Run, t: &str, ssrc: &str, pt: &str) -> (String, F
 
 pub fn s_apt(_run: &mut Run, hx: &str) -> (String, Fails) {
     let b = unhex(hx);
-    let t = String::from_utf8(b).expect("ascii");
+    let t = String::from_utf8(b).expect("utf-8");
     let r = rustrtc::rtx::parse_apt(&t);
     (match r { None => "none".into(), Some(v) => format!("some:{v}") }, vec![])
 }
@@ -510,6 +593,53 @@ pub fn s_aptmap(_run: &mut Run, toks: &[&str]) -> (String, Fails) {
         if let (Ok(pt), Some(p)) = (a.parse::<u8>(), rest.strip_prefix("apt=").and_then(|x| x.parse::<u8>().ok())) {
             if !rest.contains(';') && !m.contains_key(&pt) { f.push(("codec:rtx:aptmap".into(), format!("{pt} apt={p} not in map"))); } } } } } }
     (show_list(v.iter().map(|(a, b)| format!("{a}:{b}")).collect(), ";"), f)
+}
+
+pub fn s_apt_append(_run: &mut Run, a: &[&str]) -> (String, Fails) {
+    let (prim, rtx, clock): (u8, u8, u32) = (a[0].parse().unwrap(), a[1].parse().unwrap(), a[2].parse().unwrap());
+    let mut formats: Vec<String> = list_of(a[3], ';').iter().map(|x| String::from_utf8(unhex(x)).unwrap()).collect();
+    let mut attrs: Vec<rustrtc::sdp::Attribute> = a[4..].iter().map(|t| match t.split_once('=') {
+        None => rustrtc::sdp::Attribute::new(String::from_utf8(unhex(t)).unwrap(), None),
+        Some((k, v)) => rustrtc::sdp::Attribute::new(String::from_utf8(unhex(k)).unwrap(), Some(String::from_utf8(unhex(v)).unwrap())) }).collect();
+    let before = rustrtc::rtx::extract_rtx_apt_map_from_attrs(&attrs);
+    let had_rtpmap = attrs.iter().any(|x| x.key == "rtpmap" && x.value.as_deref() == Some(format!("{rtx} rtx/{clock}").as_str()));
+    rustrtc::rtx::append_rtx_to_section(&mut formats, &mut attrs, prim, rtx, clock);
+    let m = rustrtc::rtx::extract_rtx_apt_map_from_attrs(&attrs);
+    let got = rustrtc::rtx::rtx_pt_for_primary(&m, prim);
+    let mut cands: Vec<u8> = m.iter().filter(|(_, p)| **p == prim).map(|(r, _)| *r).collect(); cands.sort();
+    let mut f = vec![];
+    // what was appended is read back: the RTX payload type is associated with the primary one
+    if !had_rtpmap && m.get(&rtx) != Some(&prim) { f.push(("codec:rtx:append-not-read-back".into(), format!("{:?}", m.get(&rtx)))); }
+    if had_rtpmap && m != before { f.push(("codec:rtx:append-not-idempotent".into(), String::new())); }
+    if !formats.iter().any(|x| *x == rtx.to_string()) { f.push(("codec:rtx:append-format-missing".into(), String::new())); }
+    match got { Some(g) => if !cands.contains(&g) { f.push(("codec:rtx:pt-for-primary".into(), format!("{g} not associated with {prim}"))); },
+                None => if !cands.is_empty() { f.push(("codec:rtx:pt-for-primary".into(), "none although associated".into())); } }
+    if cands.len() == 1 && got != Some(cands[0]) { f.push(("codec:rtx:pt-for-primary".into(), format!("{got:?}"))); }
+    let mut mv: Vec<(u8, u8)> = m.iter().map(|(a, b)| (*a, *b)).collect(); mv.sort();
+    let out = format!("{}|{}|{}|{}", show_list(formats.iter().map(|x| hex(x.as_bytes())).collect(), ";"),
+        show_list(attrs.iter().map(|x| match &x.value { None => hex(x.key.as_bytes()), Some(v) => format!("{}={}", hex(x.key.as_bytes()), hex(v.as_bytes())) }).collect(), ","),
+        show_list(mv.iter().map(|(a, b)| format!("{a}:{b}")).collect(), ";"), show_list(cands.iter().map(|x| x.to_string()).collect(), ";"));
+    (out, f)
+}
+
+/// `rtx_rx <apt> <rtx ssrc|-> <primary ssrc> <packet>`: the receive-side `maybe_unwrap_rtx` (via hook)
+pub fn s_rtx_rx(_run: &mut Run, a: &[&str]) -> (String, Fails) {
+    let apt: Vec<(u8, u8)> = list_of(a[0], ';').iter().map(|x| { let (p, q) = x.split_once(':').unwrap(); (p.parse().unwrap(), q.parse().unwrap()) }).collect();
+    let rtx_ssrc: Option<u32> = if a[1] == "-" { None } else { Some(a[1].parse().unwrap()) };
+    let ssrc: u32 = a[2].parse().unwrap();
+    let p = parse_pkt(a[3]);
+    let rx = rustrtc::peer_connection::RtpReceiver::new(rustrtc::MediaKind::Video, 0, vec![]);
+    rx.verif_set_rtx_state(apt.clone(), rtx_ssrc, ssrc);
+    let r = rx.verif_maybe_unwrap_rtx(p.clone());
+    let mut f = vec![];
+    // documented behaviour: a packet that is neither on an RTX payload type nor on the RTX SSRC passes unchanged
+    let mapped = apt.iter().find(|(k, _)| *k == p.header.payload_type).map(|(_, v)| *v);
+    if mapped.is_none() && rtx_ssrc != Some(p.header.ssrc) && r.as_ref() != Some(&p) { f.push(("codec:rtx:rx-primary-not-passed".into(), String::new())); }
+    if let (Some(ppt), Some(u)) = (mapped, &r) {
+        if u.header.ssrc != ssrc || u.header.payload_type != ppt || p.payload.len() < 2 || u.payload[..] != p.payload[2..]
+            || u.header.sequence_number != u16::from_be_bytes([p.payload[0], p.payload[1]]) || u.header.timestamp != p.header.timestamp || u.header.marker != p.header.marker {
+            f.push(("codec:rtx:rx-restore".into(), show_pkt(u))); } }
+    (match r { None => "none".into(), Some(u) => format!("some {}", show_pkt(&u)) }, f)
 }
 
 pub fn s_is_rtcp(_run: &mut Run, hx: &str) -> (String, Fails) {
@@ -556,6 +686,8 @@ pub fn exec(run: &mut Run, case: &str) -> (String, String, String, Fails) {
         "rtx_wrap" => s_rtx_wrap(run, a[0], a[1], a[2], a[3]),
         "rtx_unwrap" => s_rtx_unwrap(run, a[0], a[1], a[2]),
         "apt" => s_apt(run, a[0]),
+        "apt_append" => s_apt_append(run, a),
+        "rtx_rx" => s_rtx_rx(run, a),
         "aptmap" => s_aptmap(run, a),
         "is_rtcp" => s_is_rtcp(run, a[0]),
         "osn" => s_osn(run, a[0]),
@@ -582,12 +714,12 @@ fn emit(run: &mut Run, case: String, nontrivial_hint: bool) {
 pub fn run(args: &Args) {
     let mut run = Run::new("c15", &args.out);
     if let Some(case) = &args.replay {
-        const STREAMS: [&str; 19] = ["apt", "aptmap", "rtp_marshal", "rtp_parse", "rtp_parse_ref", "ext_get", "ext_set", "rtcp_marshal", "rtcp_parse",
+        const STREAMS: [&str; 21] = ["apt_append", "rtx_rx", "apt", "aptmap", "rtp_marshal", "rtp_parse", "rtp_parse_ref", "ext_get", "ext_set", "rtcp_marshal", "rtcp_parse",
             "rtcp_parse_ref", "utf8", "rtx_wrap", "rtx_unwrap", "nackbuf", "gap", "is_rtcp", "osn", "rtx_alloc", "-"];
         let first = case.split_whitespace().next().unwrap_or("-");
         // replay files written for a model/implementation disagreement carry the input without its
         // stream name: try every stream the input is well-formed for
-        let cands: Vec<String> = if STREAMS.contains(&first) { vec![case.clone()] } else { STREAMS[..18].iter().map(|s| format!("{s} {case}")).collect() };
+        let cands: Vec<String> = if STREAMS.contains(&first) { vec![case.clone()] } else { STREAMS[..20].iter().map(|s| format!("{s} {case}")).collect() };
         for c in cands {
             let c2 = c.clone();
             let dir = format!("{}/replay", args.out);
@@ -817,6 +949,40 @@ pub fn run(args: &Args) {
                 3 => Some(format!("{}  {}", 96 + rng.below(4), piece(&mut rng))), _ => Some(format!("{} {}", pk!(rng, [96u64, 97, 97, 98, 300, rng.below(130)]), piece(&mut rng))) };
             match val { None => hex(key.as_bytes()), Some(v) => format!("{}={}", hex(key.as_bytes()), hex(v.as_bytes())) } }).collect();
         emit(&mut run, format!("aptmap {}", toks.join(" ")), true);
+    }
+
+    // apt values with Unicode white space around the parts (str::trim strips White_Space, not only ASCII)
+    for _ in 0..200 * scale {
+        let ws = |rng: &mut Rng| pk!(rng, ["", " ", "\u{a0}", "\u{85}", "\u{2003}", "\u{2028}", "\u{3000}", "\u{1680}", "\u{205f}", "\u{200b}", "\u{feff}", "é"]);
+        let n = rng.below(300);
+        let t = format!("{}apt={}{}{};x=1", ws(&mut rng), ws(&mut rng), n, ws(&mut rng));
+        emit(&mut run, format!("apt {}", hex(t.as_bytes())), true); run.count("apt_unicode_space");
+    }
+    // append_rtx_to_section → extract_rtx_apt_map_from_attrs → rtx_pt_for_primary
+    for _ in 0..400 * scale {
+        let prim = pk!(rng, [96u8, 97, 100, 111, 0, 255, rng.below(128) as u8]);
+        let rtx = pk!(rng, [97u8, 98, 101, 127, 9, 255, rng.below(128) as u8]);
+        let clock = pk!(rng, [90_000u32, 48_000, 8_000, 0, u32::MAX]);
+        let nf = rng.below(4);
+        let fmts: Vec<String> = (0..nf).map(|_| pk!(rng, [prim, rtx, 96, 100]).to_string()).collect();
+        let na = rng.below(5);
+        let attrs: Vec<String> = (0..na).map(|_| { let (k, v) = match rng.below(6) {
+            0 => ("rtpmap".to_string(), Some(format!("{prim} VP8/90000"))), 1 => ("rtpmap".to_string(), Some(format!("{rtx} rtx/{clock}"))),
+            2 => ("fmtp".to_string(), Some(format!("{} apt={}", pk!(rng, [rtx, 98u8, 99]), pk!(rng, [prim, 96u8, 100])))),
+            3 => ("fmtp".to_string(), Some(format!("{prim} max-fs=1200"))), 4 => ("sendrecv".to_string(), None), _ => ("mid".to_string(), Some("0".into())) };
+            match v { None => hex(k.as_bytes()), Some(v) => format!("{}={}", hex(k.as_bytes()), hex(v.as_bytes())) } }).collect();
+        emit(&mut run, format!("apt_append {prim} {rtx} {clock} {} {}", show_list(fmts.iter().map(|x| hex(x.as_bytes())).collect(), ";"), attrs.join(" ")).trim_end().to_string(), true);
+    }
+    // receive side: RTX packets produced by the real wrap, primary packets, unmapped payload types, unlatched SSRC
+    for _ in 0..800 * scale {
+        let orig = { let mut p = gens::rtp_packet(&mut rng, true); p.header.payload_type = pk!(rng, [96u8, 100, 111]); p.header.ssrc = pk!(rng, [1111u32, 2222, 0]); p };
+        let cfg = rustrtc::rtx::RtxSenderConfig { rtx_ssrc: pk!(rng, [9999u32, 9999, 1111]), rtx_payload_type: pk!(rng, [97u8, 97, 101, 96]) };
+        let apt = pk!(rng, ["97:96", "97:96;101:100", "-", "97:100", "101:111;97:96"]);
+        let rs = pk!(rng, ["9999", "9999", "-", "1111"]);
+        let latched = pk!(rng, [1111u32, 1111, 2222, 0]);
+        let pkt = match rng.below(4) { 0 => orig.clone(), 1 => { let mut w = rustrtc::rtx::wrap_rtx_packet(&orig, &cfg, gens::g16(&mut rng)); w.payload = Bytes::from(w.payload[..rng.below(3) as usize].to_vec()); w }
+            _ => rustrtc::rtx::wrap_rtx_packet(&orig, &cfg, gens::g16(&mut rng)) };
+        emit(&mut run, format!("rtx_rx {apt} {rs} {latched} {}", show_pkt(&pkt)), true);
     }
 
     // ---- NACK send buffer and receiver gap detection
